@@ -443,6 +443,10 @@ func Replay(mode string, licVer int, storage string, walk []json.RawMessage, lab
 				c.C.Close()
 			case "garbage":
 				c.SendRaw([]byte{0x00, 0x05, 1, 2, 3, 4, 5})
+			case "panic":
+				// a packet whose body is too short for its type: the decoder indexes past the end, the panic is recovered
+				// by Conn.Close ("an internal failure while serving it")
+				c.SendRaw([][]byte{{0x40, 0x00}, {0x82, 0x01, 0x00}, {0x10, 0x02, 0x00, 0x04}, {0xB0, 0x00}}[rng.Intn(4)])
 			default:
 				c.C.Close()
 			}
